@@ -372,7 +372,7 @@ def run_check(prop_id, legs, level="exploration", tier=None, assumptions=None, e
     # vacuity floors
     for leg in legs:
         pl = per_leg[leg.name]
-        if leg.floor and pl["evaluations"] >= 50:
+        if leg.floor and pl["evaluations"] >= 50 and not failures:      # a leg that found violations may stop cases early
             frac = len(pl["nontrivial"]) / pl["evaluations"]
             if frac < leg.floor:
                 print(f"HARNESS-ERROR property={prop_id}: leg {leg.name} produced only {frac:.1%} non-trivial cases "
